@@ -754,6 +754,10 @@ fn print_known_lines(prop: &str, known: &[Known], stats: &Stats) {
 }
 
 pub fn run<P: Prop>(p: &P, tier: Tier) -> i32 {
+    if let Err(e) = crate::selftest::run() {
+        eprintln!("INFRA: oracle self-test failed (the reference pieces disagree; not a violation): {}", e);
+        return 2;
+    }
     start_watchdog(false);
     let t0 = Instant::now();
     let seed = verif_seed();
